@@ -320,7 +320,15 @@ def hypothesis_shard(item: dict[str, Any]) -> Collector:
             boffs = case["offsets"][: (k_n + c_n)]
             case["offsets"] = boffs * r_n
         case["unit"] = 1.0
-        if draw(st.integers(0, 3)) == 0:  # the whole problem expressed in another unit: variables, bounds, magnitudes and function offsets
+        if "stddev" in estimators and draw(st.integers(0, 2)) == 0:
+            # a large common offset of all realizations of one function (NPV-like values): the spread, not the level, matters
+            big = draw(st.sampled_from([1e5, 1e6, -3e6]))
+            col_b = draw(st.integers(0, k_n + c_n - 1))
+            for r in range(r_n):
+                case["offsets"][r * (k_n + c_n) + col_b] += big
+            case["magnitudes"] = [max(m_, 0.01) for m_ in case["magnitudes"]]
+            case["common_offset"] = big
+        elif draw(st.integers(0, 3)) == 0:  # the whole problem expressed in another unit: variables, bounds, magnitudes and function offsets
             unit = draw(st.sampled_from([1e-9, 1e-6, 1e-3, 1e3, 1e6]))
             case["unit"] = unit
             for key in ("x", "lb", "ub", "magnitudes", "offsets"):
@@ -353,7 +361,7 @@ def hypothesis_shard(item: dict[str, Any]) -> Collector:
             f"split={case['split']}", "scaled" if case["scales"] else "unscaled",
             "stddev" if "stddev" in case["estimators"] else "mean-only", "failures" if case["nans"] else "no-failures",
             "bound-hit" if info["hit_bound"] else "inside", "filtered" if case["filters"] else "unfiltered",
-            "negative-weight" if min(case["weights"]) < 0 else "non-negative-weights", f"unit={case['unit']:g}"))
+            "negative-weight" if min(case["weights"]) < 0 else "non-negative-weights", "large-common-offset" if case.get("common_offset") else "moderate-levels", f"unit={case['unit']:g}"))
 
     run_hypothesis(col, cases(), body, seed=item["seed"], max_examples=item["examples"])
     return col
